@@ -57,7 +57,7 @@ CHECKS["C09"] = dict(
 def _rib(only, quick, thorough):
     rs = []
     for h, b in quick:
-        rs.append(dict(pkg="rib", harness=h, reach=["end", "pre-built"], thorough=dict(skip=True), opts=dict(only=only), bounds=b))
+        rs.append(dict(pkg="rib", harness=h, reach=["end", "pre-built"], opts=dict(only=only), bounds=b))
     for h, b in thorough:
         rs.append(dict(pkg="rib", harness=h, reach=["end", "pre-built"], quick=dict(skip=True), opts=dict(only=only), bounds=b))
     for r in rs:
@@ -170,7 +170,7 @@ CHECKS["C18"] = dict(
           _c18("VfC18_label_2", "every program of 2 calls (5 methods, popped stacks of 0-2 labels) + 1 later call, MPLS builder", "quick"),
           _c18("VfC18_nhg_2", "every program of 2 calls (5 methods) + 1 later call, next-hop-group builder", "quick"),
           _c18("VfC18_nh_2", "every program of 2 calls (15 methods incl. encap headers, label stacks) + 1 later call, next-hop builder", "quick"),
-          _c18("VfC18_client_3", "every sequence of 3 calls of AddEntry/ReplaceEntry/DeleteEntry (1-2 entries, optional own election id) / UpdateElectionID, in each redundancy mode, with/without initial id", "quick"),
+          _c18("VfC18_client_3", "every sequence of 3 calls of AddEntry/ReplaceEntry/DeleteEntry (1-2 entries, optional own election id) / UpdateElectionID, on one kept Modify() handle or a fresh one per call, in each redundancy mode, with/without initial id", "quick"),
           _c18("VfC18_ipv4_3", "programs of 3 calls + 1, IPv4 builder", "thorough"),
           _c18("VfC18_ipv6_2", "programs of 2 calls + 1, IPv6 builder", "thorough"),
           _c18("VfC18_label_3", "programs of 3 calls + 1, MPLS builder", "thorough"),
@@ -215,8 +215,10 @@ CHECKS["C14"] = dict(
 
 CHECKS["C11"] = dict(
     runs=[dict(pkg="server", harness="VfC11_lockset", reach=["end"], lockset=True, validate=0,
-               bounds="roles: two sessions (connect, negotiate, announce a symbolic id, operate with a symbolic operation, disconnect), a Get(ALL) reader, a Flush caller (no id / override / symbolic id), all from one shared server state with two instances; every path of every handler; accesses to objects of the shared state are logged with the held lock set")],
-    assumptions=["PARTIAL: decided here is the lock discipline (Eraser condition) over all handler paths, which implies data-race freedom of the shared server/RIB state for the considered roles, plus absence of panics on those paths; liveness under the real scheduler, atomicity of check-then-act sequences that release the lock in between, and quiescent-state equivalence of overlapping sessions are OUTSIDE (DESIGN.md C11)",
+               bounds="roles: two sessions (connect, negotiate, announce a symbolic id, operate with a symbolic operation, disconnect), a Get(ALL) reader, a Flush caller (no id / override / symbolic id), all from one shared server state with two instances; every path of every handler; accesses to objects of the shared state are logged with the held lock set"),
+          dict(pkg="server", harness="VfC11_concurrentElections", reach=["end"], validate=0, replay_attempts=3, opts=dict(unwind=16),
+               bounds="two sessions announce arbitrary non-zero 128-bit ids concurrently (real runElection, two goroutines); every schedule with up to 2 pre-emptive context switches at synchronisation points; quiescent election state checked")],
+    assumptions=["PARTIAL: decided here is (a) the lock discipline (Eraser condition) over all handler paths, which implies data-race freedom of the shared server/RIB state for the considered roles, plus absence of panics on those paths, and (b) the quiescent election state after two concurrent announcements under a context-bounded scheduler; liveness under the real scheduler, atomicity of other check-then-act sequences, and quiescent RIB equivalence of overlapping sessions are OUTSIDE (DESIGN.md C11)",
                  "a lock-discipline finding is reported as a violation only when `go test -race` on TestVfRaceStress (4 sessions, 2 readers, 2 flushers, real goroutines) reports a data race whose stacks contain the two functions; otherwise it is listed as unconfirmed and the check is inconclusive",
                  "objects created by a handler itself (not part of the shared state before the roles start) are not tracked"],
     level_text="Lock-set analysis on top of bounded symbolic execution: the schedule quantifier is discharged by checking, over all symbolic paths of each handler, that conflicting accesses of different roles share a mutex; confirmation by the Go race detector.",
